@@ -518,7 +518,8 @@ func runC13(rc *runCtx) *RunResult {
 					label = [...]string{"fresh objects, mutations only", "fresh object, inversions mod 2"}[v]
 				default:
 					// loops only: a brand-new loop made from the subject's current vertices
-					if od.Kind != OLoop || h.curVerts == nil || len(h.MutsA) == 0 {
+					if od.Kind != OLoop || h.curVerts == nil || len(h.MutsA) == 0 || q.Kind == QBounds {
+						// (the bound after Invert is allowed to be looser than the bound of a new loop)
 						return "skip"
 					}
 					nl := s2.LoopFromPoints(append([]s2.Point(nil), h.curVerts...))
@@ -548,6 +549,15 @@ func runC13(rc *runCtx) *RunResult {
 			}
 			rc.inc("reference_checks", 1)
 			subj, ref := h.ans, refAns
+			if v != 0 {
+				// a reference that did not go through the same mutation sequence may store the
+				// polygon's loops in another order, and may have a tighter bound (the bound after
+				// Invert is allowed to be loose): compare what is a function of the region only
+				if q.Kind == QBounds {
+					continue
+				}
+				subj, ref = orderIndependent(subj), orderIndependent(ref)
+			}
 			if structureSensitive(&q) {
 				same := h.cellsOK && refCellsOK && eqU64(h.subjCells, refCells)
 				if !same {
